@@ -420,6 +420,8 @@ class Parser(object):
             elif t[2] == '/':
                 t[0] = t[1] // t[3]
             elif t[2] == '<<':
+                if t[3] > 64:
+                    raise OverflowError
                 t[0] = t[1] << t[3]
             elif t[2] == '>>':
                 t[0] = t[1] >> t[3]
